@@ -900,38 +900,45 @@ Proof.
   intros H. apply Hn. apply in_map_iff in H as ([m t'] & E & H). cbn [fst] in E. subst m. exact (spec_names _ _ _ H).
 Qed.
 
-Lemma view_names ss entries x : NoDup (map fst entries) -> In x (triples (services_changed ss entries) 0) -> In (tname x) (map fst entries).
+Lemma view_names ss entries x : (List.length ss + List.length entries <= max_slots)%nat ->
+  NoDup (map fst entries) -> In x (triples (services_changed ss entries) 0) -> In (tname x) (map fst entries).
 Proof.
-  intros ND H. apply (in_map tnt) in H. rewrite triples_view in H.
-  apply (Permutation_in _ (reload_view ss entries ND)) in H. exact (spec_names _ _ _ H).
+  intros Cap ND H. apply (in_map tnt) in H. rewrite triples_view in H.
+  apply (Permutation_in _ (reload_view ss entries Cap ND)) in H. exact (spec_names _ _ _ H).
 Qed.
 
-Lemma ciu_reload ss entries : NoDup (map fst entries) -> CiDistinct (map fst entries) -> CiU (triples (services_changed ss entries) 0).
+Lemma ciu_reload ss entries : (List.length ss + List.length entries <= max_slots)%nat ->
+  NoDup (map fst entries) -> CiDistinct (map fst entries) -> CiU (triples (services_changed ss entries) 0).
 Proof.
-  intros ND CD x y nm Hx Hy Cx Cy.
+  intros Cap ND CD x y nm Hx Hy Cx Cy.
   assert (tname x = tname y) as E.
-  { apply CD; [exact (view_names _ _ _ ND Hx)|exact (view_names _ _ _ ND Hy)|]. eapply ci_eq_trans; [apply ci_eq_sym; exact Cx|exact Cy]. }
+  { apply CD; [exact (view_names _ _ _ Cap ND Hx)|exact (view_names _ _ _ Cap ND Hy)|]. eapply ci_eq_trans; [apply ci_eq_sym; exact Cx|exact Cy]. }
   apply (nodup_map_inj tname (triples (services_changed ss entries) 0)); try assumption.
-  rewrite triples_names. apply (Permutation_NoDup (Permutation_sym (Permutation_map fst (reload_view ss entries ND)))).
+  rewrite triples_names. apply (Permutation_NoDup (Permutation_sym (Permutation_map fst (reload_view ss entries Cap ND)))).
   apply spec_nodup. exact ND.
 Qed.
 
-Theorem trrel_reload ss entries : NoDup (map fst entries) -> CiDistinct (map fst entries) ->
+(* the capacity hypothesis (D27): the old vector has room for the file's entries, each of which may need one more slot;
+   it covers the fresh daemon as well, whose vector starts empty *)
+Theorem trrel_reload ss entries : (List.length ss + List.length entries <= max_slots)%nat ->
+  NoDup (map fst entries) -> CiDistinct (map fst entries) ->
   TrRel (triples (services_changed ss entries) 0) (triples (services_changed [] entries) 0).
 Proof.
-  intros ND CD.
-  assert (forall ss', NoDup (map tname (triples (services_changed ss' entries) 0))) as Nn.
-  { intros ss'. rewrite triples_names. apply (Permutation_NoDup (Permutation_sym (Permutation_map fst (reload_view ss' entries ND)))).
+  intros Cap ND CD.
+  assert (List.length (@nil (option svc)) + List.length entries <= max_slots)%nat as Cap0 by (cbn [List.length]; lia).
+  assert (forall ss', (List.length ss' + List.length entries <= max_slots)%nat -> NoDup (map tname (triples (services_changed ss' entries) 0))) as Nn.
+  { intros ss' Cap'. rewrite triples_names. apply (Permutation_NoDup (Permutation_sym (Permutation_map fst (reload_view ss' entries Cap' ND)))).
     apply spec_nodup. exact ND. }
-  constructor; try apply triples_nodup; try apply Nn; try (apply ciu_reload; assumption).
-  intros n t. rewrite !triples_view. split; apply Permutation_in; [|apply Permutation_sym]; apply reload_equiv_fresh; exact ND.
+  constructor; try apply triples_nodup; try (apply Nn; assumption); try (apply ciu_reload; assumption).
+  intros n t. rewrite !triples_view. split; apply Permutation_in; [|apply Permutation_sym]; apply reload_equiv_fresh; assumption.
 Qed.
 
 (* names of the services the file leaves CONFIGURED (entries with a known type) *)
-Lemma view_names_spec ss entries x : NoDup (map fst entries) -> In x (triples (services_changed ss entries) 0) -> In (tname x) (map fst (spec entries)).
+Lemma view_names_spec ss entries x : (List.length ss + List.length entries <= max_slots)%nat ->
+  NoDup (map fst entries) -> In x (triples (services_changed ss entries) 0) -> In (tname x) (map fst (spec entries)).
 Proof.
-  intros ND H. apply (in_map tnt) in H. rewrite triples_view in H.
-  apply (Permutation_in _ (reload_view ss entries ND)) in H. apply (in_map fst) in H. exact H.
+  intros Cap ND H. apply (in_map tnt) in H. rewrite triples_view in H.
+  apply (Permutation_in _ (reload_view ss entries Cap ND)) in H. apply (in_map fst) in H. exact H.
 Qed.
 
 Lemma cidistinct_spec entries : CiDistinct (map fst entries) -> CiDistinct (map fst (spec entries)).
@@ -941,37 +948,41 @@ Proof.
   - apply in_map_iff in Hb as ([n t] & <- & H). exact (spec_names _ _ _ H).
 Qed.
 
-Theorem trrel_reload_spec ss entries : NoDup (map fst entries) -> CiDistinct (map fst (spec entries)) ->
+Theorem trrel_reload_spec ss entries : (List.length ss + List.length entries <= max_slots)%nat ->
+  NoDup (map fst entries) -> CiDistinct (map fst (spec entries)) ->
   TrRel (triples (services_changed ss entries) 0) (triples (services_changed [] entries) 0).
 Proof.
-  intros ND CD.
-  assert (forall ss', NoDup (map tname (triples (services_changed ss' entries) 0))) as Nn.
-  { intros ss'. rewrite triples_names. apply (Permutation_NoDup (Permutation_sym (Permutation_map fst (reload_view ss' entries ND)))).
+  intros Cap ND CD.
+  assert (List.length (@nil (option svc)) + List.length entries <= max_slots)%nat as Cap0 by (cbn [List.length]; lia).
+  assert (forall ss', (List.length ss' + List.length entries <= max_slots)%nat -> NoDup (map tname (triples (services_changed ss' entries) 0))) as Nn.
+  { intros ss' Cap'. rewrite triples_names. apply (Permutation_NoDup (Permutation_sym (Permutation_map fst (reload_view ss' entries Cap' ND)))).
     apply spec_nodup. exact ND. }
-  assert (forall ss', CiU (triples (services_changed ss' entries) 0)) as Cu.
-  { intros ss' x y nm Hx Hy Cx Cy.
+  assert (forall ss', (List.length ss' + List.length entries <= max_slots)%nat -> CiU (triples (services_changed ss' entries) 0)) as Cu.
+  { intros ss' Cap' x y nm Hx Hy Cx Cy.
     assert (tname x = tname y) as E.
-    { apply CD; [exact (view_names_spec _ _ _ ND Hx)|exact (view_names_spec _ _ _ ND Hy)|]. eapply ci_eq_trans; [apply ci_eq_sym; exact Cx|exact Cy]. }
-    exact (nodup_map_inj tname _ _ _ (Nn ss') Hx Hy E). }
-  constructor; try apply triples_nodup; try apply Nn; try apply Cu.
-  intros n t. rewrite !triples_view. split; apply Permutation_in; [|apply Permutation_sym]; apply reload_equiv_fresh; exact ND.
+    { apply CD; [exact (view_names_spec _ _ _ Cap' ND Hx)|exact (view_names_spec _ _ _ Cap' ND Hy)|]. eapply ci_eq_trans; [apply ci_eq_sym; exact Cx|exact Cy]. }
+    exact (nodup_map_inj tname _ _ _ (Nn ss' Cap') Hx Hy E). }
+  constructor; try apply triples_nodup; try (apply Nn; assumption); try (apply Cu; assumption).
+  intros n t. rewrite !triples_view. split; apply Permutation_in; [|apply Permutation_sym]; apply reload_equiv_fresh; assumption.
 Qed.
 
 (* C17, behavioural: the whole conversation of a client announced after the reload.  Step by step, the reloaded daemon
    and the fresh daemon emit  <query lines> ++ <other lines>  with identical other lines (challenges, +x, U line,
    verdict with class, "d" soft-done, ...) and the same query lines up to their order and the serial in the tag.
-   Hypotheses beyond the two of the reload theorems:
+   Capacity (D27): the slot vector of s has room for the entries of the file (slots of index >= 32 are refused).
+   Hypotheses beyond those of the reload theorems:
    - CiDistinct: no two CONFIGURED service names of the file differ only by letter case (needed: see `ci_distinct_needed`);
    - NoDupIds (reqs s): the request table of the reloaded daemon holds one request per id (Mon01: every reachable state);
    - lookup i (reqs s) = None: client i is not known before the reload (it is a newcomer). *)
 Theorem newcomer_after_reload_strong : forall c s svs rs t i h,
+  (List.length (slots (tb s)) + List.length svs <= max_slots)%nat ->
   NoDup (map fst svs) -> CiDistinct (map fst (spec svs)) ->
   NoDupIds (reqs s) -> lookup i (reqs s) = None -> Forall (fun a => aid a = i) h ->
   let s1 := fst (step_ev c s (Reload svs rs t)) in
   let s0 := init c svs rs t in
   Forall2 OutEq (arun c s1 h) (arun c s0 h).
 Proof.
-  intros c s svs rs t i h ND CD NI Hl Hh s1 s0.
+  intros c s svs rs t i h Cap ND CD NI Hl Hh s1 s0.
   apply (arun_rel c i (triples (services_changed (slots (tb s)) svs) 0) (triples (services_changed [] svs) 0) h);
     [apply trrel_reload_spec; assumption|exact Hh|].
   subst s1 s0. cbn [step_ev fst init]. constructor; cbn [reqs tb slots rules tmo]; try reflexivity.
@@ -981,14 +992,15 @@ Proof.
 Qed.
 
 Theorem newcomer_after_reload_is_treated_as_by_fresh_daemon : forall c s svs rs t i h,
+  (List.length (slots (tb s)) + List.length svs <= max_slots)%nat ->
   NoDup (map fst svs) -> CiDistinct (map fst svs) ->
   NoDupIds (reqs s) -> lookup i (reqs s) = None -> Forall (fun a => aid a = i) h ->
   let s1 := fst (step_ev c s (Reload svs rs t)) in
   let s0 := init c svs rs t in
   Forall2 (fun o1 o0 => Permutation (map eser o1) (map eser o0)) (arun c s1 h) (arun c s0 h).
 Proof.
-  intros c s svs rs t i h ND CD NI Hl Hh s1 s0.
-  pose proof (newcomer_after_reload_strong c s svs rs t i h ND (cidistinct_spec _ CD) NI Hl Hh) as H. cbv zeta in H. fold s1 s0 in H.
+  intros c s svs rs t i h Cap ND CD NI Hl Hh s1 s0.
+  pose proof (newcomer_after_reload_strong c s svs rs t i h Cap ND (cidistinct_spec _ CD) NI Hl Hh) as H. cbv zeta in H. fold s1 s0 in H.
   induction H as [|o1 o0 l1 l0 Ho Hl' IH]; constructor; [apply outeq_perm; exact Ho|exact IH].
 Qed.
 
@@ -1062,13 +1074,14 @@ Proof.
 Qed.
 
 Theorem newcomer_after_reload_interleaved : forall c s svs rs t i h,
+  (List.length (slots (tb s)) + List.length svs <= max_slots)%nat ->
   NoDup (map fst svs) -> CiDistinct (map fst (spec svs)) ->
   NoDupIds (reqs s) -> lookup i (reqs s) = None ->
   let s1 := fst (step_ev c s (Reload svs rs t)) in
   let s0 := init c svs rs t in
   Forall2 OutEq (own i c s1 h) (arun c s0 (filter (abelongs i) h)) /\ others i c s1 h = [].
 Proof.
-  intros c s svs rs t i h ND CD NI Hl s1 s0.
+  intros c s svs rs t i h Cap ND CD NI Hl s1 s0.
   apply (own_rel c i (triples (services_changed (slots (tb s)) svs) 0) (triples (services_changed [] svs) 0) h);
     [apply trrel_reload_spec; assumption|].
   subst s1 s0. cbn [step_ev fst init]. constructor; cbn [reqs tb slots rules tmo]; try reflexivity.
@@ -1102,11 +1115,13 @@ End Cex.
 
 Theorem ci_distinct_needed :
   exists c s svs rs t i h,
+    (List.length (slots (tb s)) + List.length svs <= max_slots)%nat /\
     NoDup (map fst svs) /\ NoDupIds (reqs s) /\ lookup i (reqs s) = None /\ Forall (fun a => aid a = i) h /\
     ~ Forall2 (fun o1 o0 => Permutation (map eser o1) (map eser o0))
         (arun c (fst (step_ev c s (Reload svs rs t))) h) (arun c (init c svs rs t) h).
 Proof.
-  exists Cex.cx, Cex.sold, Cex.svs1, Cex.rs1, false, 1%Z, Cex.hist. split; [|split; [|split; [|split]]].
+  exists Cex.cx, Cex.sold, Cex.svs1, Cex.rs1, false, 1%Z, Cex.hist. split; [|split; [|split; [|split; [|split]]]].
+  - vm_compute. lia.
   - repeat constructor; cbn; intuition discriminate.
   - constructor.
   - reflexivity.
